@@ -214,13 +214,18 @@ func (e *lockupEnv) lockStr(l *lockuptypes.PeriodLock) string {
 
 // shadow selection: ids of shadow locks satisfying p, ascending
 func (e *lockupEnv) sel(p func(l *shLock) bool) []uint64 {
+	// the predicate may draw from the PRNG: evaluate it in id order, not in Go's map order, so that a seed replays exactly
+	ids := make([]uint64, 0, len(e.shadow))
+	for id := range e.shadow {
+		ids = append(ids, id)
+	}
+	sort.Slice(ids, func(i, j int) bool { return ids[i] < ids[j] })
 	var out []uint64
-	for _, l := range e.shadow {
-		if p(l) {
+	for _, id := range ids {
+		if l := e.shadow[id]; p(l) {
 			out = append(out, l.id)
 		}
 	}
-	sort.Slice(out, func(i, j int) bool { return out[i] < out[j] })
 	return out
 }
 
